@@ -17,3 +17,39 @@ Definition cn_matches (T : tenv) (fp out : flatprog) : bool :=
   | Some m => list_eqb cn_ga_matches (fp_init m) (fp_init out) && list_eqb cn_ga_matches (fp_body m) (fp_body out)
   | None => false
   end.
+
+(* ---- DistTransformer: source programs (statement trees) up to polynomial normal form ---- *)
+From Polar Require Import PassDist.
+
+Fixpoint stmt_eq (a b : stmt) : bool :=
+  match a, b with
+  | SAssign x r, SAssign y r' => var_eqb x y && rhs_eq_poly r r'
+  | SSimult l, SSimult l' =>
+      list_eqb (fun p q : var * rhs => var_eqb (fst p) (fst q) && rhs_eq_poly (snd p) (snd q)) l l'
+  | SIf bs els, SIf bs' els' => branches_eq bs bs' && block_eq els els'
+  | _, _ => false
+  end
+with block_eq (a b : block) : bool :=
+  match a, b with
+  | BNil, BNil => true
+  | BCons s a', BCons t b' => stmt_eq s t && block_eq a' b'
+  | _, _ => false
+  end
+with branches_eq (a b : branches) : bool :=
+  match a, b with
+  | BrNil, BrNil => true
+  | BrCons c x a', BrCons d y b' => cond_eq_poly c d && block_eq x y && branches_eq a' b'
+  | _, _ => false
+  end.
+
+Definition prog_eq (p q : prog) : bool :=
+  block_eq (p_init p) (p_init q) && cond_eq_poly (p_guard p) (p_guard q) && block_eq (p_body p) (p_body q).
+
+Definition dist_in_model (ns : list var) (p : prog) : bool :=
+  match dt_prog ns p with Some _ => true | None => false end.
+(* the model consumes exactly the supplied names and produces Polar's program *)
+Definition dist_matches (ns : list var) (p out : prog) : bool :=
+  match dt_prog ns p with
+  | Some (m, rest) => prog_eq m out && match rest with [] => true | _ => false end
+  | None => false
+  end.
